@@ -25,8 +25,6 @@ from pathlib import Path
 from . import core
 
 MARK = "# paroxython:"
-SIG_RESIDUAL = ("C12:hint alone on a line before a leading (after a trailing) blank line: the blank line is numbered "
-                "but stripped from the stored source")
 # kept for C02's import; the findings they named are repaired, a recurrence is an unknown violation
 SIG_WHOLESPAN = "C12:deletion hint on the computed label whole_span:N (aggregate SQL query yields a NULL span)"
 
@@ -554,6 +552,8 @@ def stream_blank_ends(ctx, impl, drv, judge):
         outer_before = [{"isolated": "outer", "indent": 0}] if rng.random() < 0.3 else []
         outer_after = [{"isolated": "outer", "indent": 0}] if rng.random() < 0.3 else []
         layout = outer_before + [dict(blank)] * lead + inner + [dict(blank)] * trail + outer_after
+        if rng.random() < 0.3 and inner and "code" in inner[0]:
+            inner[0] = dict(inner[0], code="    " + inner[0]["code"])  # an indented first line is only stripped
         reference = outer_before + inner + outer_after
         spec_ref = drv.call("c12.spec_decorate", lines=reference)
         exp = expected_of(spec_ref) if spec_ref["hygienic"] else None
@@ -566,12 +566,11 @@ def stream_blank_ends(ctx, impl, drv, judge):
         if got != model:
             judge.report_disagreement("blank-ends", src, got, model)
         if exp is not None and got != exp:
-            residual = (bool(outer_before) and lead > 0) or (bool(outer_after) and trail > 0)
             hits += 1
             add_violation(ctx, {
                 "what": "hints of a program with blank lines at the ends of its text are not scheduled on the lines of "
                         "the stored listing",
-                "signature": SIG_RESIDUAL if residual else None,
+                "signature": None,
                 "replay": {"kind": "blank-ends", "layout": layout, "src": src, "impl": got, "model": model,
                            "spec": exp, "how": "get_program(src) vs get_program of the same program without the blank end lines"},
             }, per_sig=1)
@@ -879,9 +878,8 @@ def run(ctx):
     ]
     ctx.assumptions += [
         "C12_roundtrip: code lines are single lines without any look-alike of the marker and without trailing white space; "
-        "labels start with a word character, contain no white space and no `#`, do not end with an ellipsis; after the "
-        "blank ends of the text are trimmed, the first code line is neither blank nor indented and the last one is not "
-        "blank (residual finding: a hint alone on a line before/after a blank end line); marks properly nested per label "
+        "labels start with a word character, contain no white space and no `#`, do not end with an ellipsis; some code "
+        "line is not blank; marks properly nested per label "
         "(LIFO reading); no label opened for addition and deletion on one line (the code closes the addition first)",
         "C12_deletion_exact: the deletion schedule is a dictionary (distinct names) — proved of every get_program output "
         "(C12_schedule_shape)",
